@@ -88,6 +88,10 @@ def build_frame(fs):
   if k == "arp":
     return F.eth(dst, src, F.ETH_ARP,
                  F.arp(fs["op"], src, fs["sip"], b"\0" * 6, fs["dip"]), vlan)
+  if k == "rarp":
+    # same layout as ARP, but not ARP as far as the 12-tuple is concerned
+    return F.eth(dst, src, 0x8035,
+                 F.arp(fs["op"], src, fs["sip"], b"\0" * 6, fs["dip"]), vlan)
   if k == "other":
     return F.eth(dst, src, fs["ethertype"], pay, vlan)
   if k == "snap":
@@ -292,7 +296,12 @@ class Ref(object):
     buffer_id = W.NO_BUFFER
     if buf is not None:
       buffer_id = self.resolve_buffer(buf)
-    raw = W.enc_flow_mod(xid, m, st["cmd"], acts, cookie=st.get("cookie", 0),
+    wire_m = m
+    if "wildcards" not in m and sim.ch.chance("match_wire_form", 0.3):
+      # the other legal wire form: ignored fields not wildcarded, set to 0
+      wire_m = dict(m, wildcards=W.ignored_fields_cleared(m))
+      sim.probes["match_ignored_fields_cleared"] += 1
+    raw = W.enc_flow_mod(xid, wire_m, st["cmd"], acts, cookie=st.get("cookie", 0),
                          idle=st.get("idle", 0), hard=st.get("hard", 0),
                          priority=st["prio"], buffer_id=buffer_id,
                          out_port=st.get("out_port", W.OFPP_NONE),
